@@ -303,6 +303,20 @@ def check_class(run, repo, eff, fr, ci, mns, encs):
                  sample={'class': ci.name, 'mnemonic': mn, 'encodings': sorted(encs), 'core': fmt(cores[0][0])[:120]})
 
 
+def _judge_mutant(run, mrepo, name, ctx):
+    from .. import dprefs
+    from . import c09
+    ci, mns, encs = ctx['classes'][name]
+    mci = mrepo.cls(name)
+    check_class(run, mrepo, ctx['eff'], ctx['fr'], mci, mns, encs)
+    if not run.findings and len(mns) == 1:
+        mn = sorted(mns)[0]
+        fields = init_fields(mci)
+        top, extra = dprefs.harness_options(name, mn, fields)
+        c09.check_variant(run, mrepo, ctx['fr'], mci, dprefs.dp_model(mn, fields), {}, None, rule='C01-V', top_roles=top,
+                          extra_words=extra, abstract_shift=dprefs.wants_abstract_shift(mn, fields))
+
+
 def main(repo_path, tier, seed, replay=None):
     run = Run('C01', tier, level='other', seed=seed)
     repo = Repo(repo_path)
@@ -371,6 +385,10 @@ def main(repo_path, tier, seed, replay=None):
             what = '%s: AddWithCarry carry-in replaced by the constant 1' % ci.name
             break
     run.control('C01-A SBC carry-in', fired, what)
+    if tier == 'thorough':
+        from ..selftest import run_selftest
+        targets = [(name, ci.module.relpath, ci.module.source, name + '.execute') for name, (ci, mns, encs) in sorted(classes.items())]
+        run_selftest(run, repo_path, 'C01', targets, _judge_mutant, {'fr': fr, 'eff': eff, 'classes': classes}, per_function=8, floor=75, seconds=12)
     run.exhaustive = True
     run.undecided = []
     run.assumptions = ['families are bound through the reference encodings (spec/enc_*.json); operand decoding is C06/C07']
